@@ -1,10 +1,174 @@
-from .rules import version, layout, opcodes as o, engine as e, glue
-NOT_APPLICABLE = {}
-def S(rules): return {"rules": rules, "explanation": "x", "assumptions": [], "decides": [], "not_decided": []}
+"""Property -> rules, and the texts that go into MANIFEST.json / evidence."""
+from .rules import version, layout, opcodes as o, engine as e, glue, registry
+
+TECH = "repository-specific static analysis"
+BASE_ASSUME = [
+    "ordinary Python semantics of try/except/finally, with, threading.local, dict and deque operations",
+    "the analysed tree is what gets imported (no monkey-patching of stackscope at run time)",
+]
+FACT_ASSUME = [
+    "CPython 3.9.18 / 3.10.13 / 3.11.7 / 3.12.1 under /root/.pyenv/versions stand for the supported minor versions (their headers, opcode tables, compiler and contextlib.py are the fact sources)",
+    "LP64, non-debug CPython build (no Py_TRACE_REFS header padding)",
+]
+
+
+def S(rules, *, explanation, decides, not_decided, assumptions, level_text, level_note, technique, design_ref):
+    return dict(rules=rules, explanation=explanation, decides=decides, not_decided=not_decided, assumptions=assumptions,
+                level_text=level_text, level_note=level_note, technique=technique, design_ref=design_ref)
+
+
 PROPS = {
- "C01": S(version.RULES + layout.RULES + [o.opc3_prologue, o.opc3b_fillers, o.int_intervals, o.exi1_producers, o.join1]),
- "C02": S([o.opc1_cache_normalisation, o.exi2_consumers, o.int_intervals]),
- "C05": S(e.C05), "C10": S(e.C10), "C11": S(e.C11), "C13": S(e.C13), "C16": S(e.C16),
- "C17": S(glue.C17),
- "C08": S([o.opc2_target_decoder, o.opc3_prologue, o.opc3b_fillers, o.line1, o.fall1]),
+    "C01": S(
+        version.RULES + layout.RULES + [o.opc3_prologue, o.opc3b_fillers, o.int_intervals, o.exi1_producers, o.join1],
+        explanation="Necessary conditions of 'contexts of a suspended frame are exact on CPython 3.9-3.12', decided from source: "
+                    "partial evaluation of every sys.version_info branch over the four supported interpreters (every strict opcode lookup names an opcode that exists where it is reachable; "
+                    "the ctypes module selected for V is one whose asserts hold for V; version-conditional names are bound wherever they are used); "
+                    "field-by-field agreement of the ctypes structures with the C headers of each interpreter; the with-prologue length constants and filler opcodes against what each compiler emits; "
+                    "inclusive-interval agreement between the exception-table parser and its consumers; the 'exiting context is last' producer convention; the three-way join of _contexts_active_by_trickery.",
+        decides=["VER-0..3", "OPC-4", "LAY-311", "LAY-310", "OPC-3", "OPC-3b", "INT", "EXI-1", "JOIN-1"],
+        not_decided=["that the bytecode pattern matcher resolves the right with-block for every shape the compiler emits (finding F2 of the property text: needs the matcher to be run on bytecode)",
+                     "data-dependent EXTENDED_ARG / CLEANUP_THROW / NOP index arithmetic", "the CFG walk used on 3.9/3.10"],
+        assumptions=BASE_ASSUME + FACT_ASSUME,
+        level_text="Static necessary-condition check: every rule instance (obligation) is enumerated from /repo's AST on each run and compared with fact tables derived from CPython's own headers, opcode tables and compiler output for 3.9-3.12. "
+                   "It decides the version-soundness, layout-agreement and convention clauses of the property for all four interpreters at once (the suite runs on one), not the behavioural exactness of the pattern matcher.",
+        level_note="Trusted: CPython headers/opcode tables/compile() output of the four interpreters in the sandbox; the svx checker itself (self-tested on seeded variants in the thorough tier).",
+        technique="static analysis: partial evaluation over the supported-version set + reader/writer table agreement (ctypes layout vs C headers, prologue constants vs compiler output)",
+        design_ref="DESIGN.md section 4, C01",
+    ),
+    "C02": S(
+        [o.opc1_cache_normalisation, o.exi2_consumers, o.int_intervals] + [version.ver1_opcodes, version.ver2_dispatch],
+        explanation="Clauses specific to frames running on the calling thread: a forward must-dataflow over the CFG of currently_exiting_context tracks whether `offs` has skipped inline CACHE units "
+                    "on every path to each identity test against an opcode that carries cache entries in some reachable interpreter (SEND on 3.12, CALL on 3.11/3.12, PRECALL on 3.11) -- "
+                    "a running frame's f_lasti may rest on such an entry; every consumer addresses the exiting context as [-1] and recovers obj from the first argument of the next inner frame; "
+                    "interval convention of the handler-depth lookup that trims a running frame's stack; plus the version rules on the code involved.",
+        decides=["OPC-1", "EXI-2", "INT", "VER-1", "VER-2"],
+        not_decided=["per-opcode f_lasti conventions beyond the cache-entry rule", "everything listed under C01"],
+        assumptions=BASE_ASSUME + FACT_ASSUME + ["pycore_frame.h: prev_instr 'may be an inline CACHE entry' for a running frame"],
+        level_text="Static path-sensitive check (must-analysis on the function's CFG, per interpreter version) of the cache-normalisation discipline, plus sibling-agreement checks on the 'exiting context is last' convention. "
+                   "Found F1 (running __aexit__ on 3.12), repaired in /repo; reports it again if it returns.",
+        level_note="Necessary conditions only; inline-cache-entry counts come from each interpreter's opcode module.",
+        technique="static analysis: CFG must-dataflow (typestate RAW/NORM of the instruction offset) + sibling agreement",
+        design_ref="DESIGN.md section 4, C02",
+    ),
+    "C05": S(
+        e.C05,
+        explanation="The per-call-site containment discipline behind 'extract never raises': every call in extract/extract_child/extract_iter is resolved and classified; calls that run third-party code "
+                    "(unwrap_stackitem, FrameIterator stepping, contexts_active_in_frame, fill_context, elaborate_frame) must lie in a try whose handler catches Exception, does not re-raise or leave the engine loop, "
+                    "and appends the exception to the list that becomes Stack.error; every pop/popleft/[0]/[-1] on the engine's queues must be dominated by a non-emptiness test (CFG must-dataflow); "
+                    "a frame taken from the queue is yielded on every non-raising path; the error list maps to None / the exception / an ExceptionGroup by length; every local is definitely assigned "
+                    "on all paths including exceptional edges; every remaining call is on a reviewed allowlist (an unlisted call makes the check undecided, exit 2).",
+        decides=["CONT-1", "CONT-2", "CONT-3", "CONT-4", "CONT-5", "DEF-1", "CONT-W"],
+        not_decided=["that .error survives formatting", "pairs of faults interacting", "warnings escalated to errors by a -W error filter", "AssertionError from the engine's own asserts (argued from its invariants, not checked)"],
+        assumptions=BASE_ASSUME + ["hook results documented as sequences behave as sequences (len/reversed/iteration do not raise)"],
+        level_text="Static discipline check: the property is a per-call-site try/except discipline, which is visible in the shape of the code on every path; the rules enumerate every call site and every queue access of the engine on each run. "
+                   "Found F6 (IndexError on the documented insert form), repaired in /repo.",
+        level_note="Decides the containment discipline, not run-time equality of outer frames with the fault-free extraction.",
+        technique="static analysis: call classification + enclosing-handler check + CFG must-dataflows (non-emptiness, definite assignment) + all-paths-pass-through",
+        design_ref="DESIGN.md section 4, C05",
+    ),
+    "C08": S(
+        [o.opc2_target_decoder, o.opc3_prologue, o.opc3b_fillers, o.line1, o.fall1, version.ver1_opcodes],
+        explanation="Exhaustiveness of the `as`-target decoder against the compilers: the set of opnames with a (non-raising) case in describe_assignment_target is compared with every opname that the compiler of each supported interpreter "
+                    "emits in the store sequence of an always-rendered target (387 generated targets x 4 scopes x 4 interpreters, compile+dis only); with-prologue lengths and fillers per interpreter; "
+                    "start_line is taken from the line tracking updated before the with-opcode test; the local-name fallback applies only when varname is None and obj is known, by identity.",
+        decides=["OPC-2", "OPC-3", "OPC-3b", "LINE-1", "FALL-1", "VER-1"],
+        not_decided=["the per-opcode semantics of the symbolic stack machine", "data-dependent skips", "the 'static leg' over the standard library (would run analyze_with_blocks: out of family)"],
+        assumptions=BASE_ASSUME + FACT_ASSUME + ["the generated target grammar (names, attributes, constant/name subscripts, positional calls, (starred) tuple/list unpacking, nesting <= 2) covers the documented always-rendered set"],
+        level_text="Static exhaustiveness check of a hand-written decoder against fact tables of compiler output for each supported interpreter. Found N1 (PUSH_NULL unhandled on 3.11/3.12), repaired in /repo.",
+        level_note="Compiler facts come from compile()+dis on each interpreter (nothing executed, no stackscope code involved).",
+        technique="static analysis: exhaustiveness (handled-opcode set vs compiler-emitted set per version) + constant folding of prologue arithmetic",
+        design_ref="DESIGN.md section 4, C08",
+    ),
+    "C10": S(
+        e.C10,
+        explanation="Shape of the two-deque engine: the progress counter is incremented once per unwrap_stackitem call, reset in every progress branch and before the loop, compared with the literal 100, and its RuntimeError is raised inside the containment try; "
+                    "the elaborate_frame result is dispatched over exactly the four documented shapes (the replace/insert condition is checked as a boolean function of its atoms; prune removes depth >= the frame's depth; insert drops exactly one queued copy); "
+                    "yields_frames wraps in FrameIterator and only FrameIterators are stepped; PRUNE is (); queue accesses are guarded.",
+        decides=["ENG-1", "ENG-2", "YF-1", "CONT-3"],
+        not_decided=["equality with a reference interpretation of the rules on every item tree (finding F7: depth bookkeeping after nested inserts)", "index arithmetic on depths"],
+        assumptions=BASE_ASSUME,
+        level_text="Static structural check of the engine's dispatch and guard discipline; necessary conditions of the documented rules, not a behavioural equivalence.",
+        level_note="Behaviour over run-time item trees is not decided.",
+        technique="static analysis: structural/dispatch-shape rules, truth tables over condition atoms, CFG must-dataflow",
+        design_ref="DESIGN.md section 4, C10",
+    ),
+    "C11": S(
+        e.C11,
+        explanation="Loop protocol of fill_context: elaborate_context dominates unwrap_context in each iteration, both on the current context.obj; whenever context.obj is rebound, inner_stack=None and children=() are stored on every path before the next elaborate; "
+                    "None and PRUNE both leave the loop (PRUNE after hide=True, tested before the rebinding); the loop is bounded by range(100) and its else raises; outside an extraction fill_context re-enters itself under push(<extract's defaults>); "
+                    "both lookup paths of the generator-manager unwrapper pass the outermost frame after a registry membership test, and contextlib's base type is registered for both hooks.",
+        decides=["CTX-1", "CTX-2", "CTX-3", "CTX-4", "CTX-5"],
+        not_decided=["hook results for every wrapper chain"],
+        assumptions=BASE_ASSUME,
+        level_text="Static protocol check (order, reset, exit and bound obligations on the loop's CFG). Given Python semantics these imply the documented steady-state behaviour for well-behaved hooks.",
+        level_note="Hooks themselves are third-party code.",
+        technique="static analysis: CFG dominance and all-paths-pass-through on the hook loop",
+        design_ref="DESIGN.md section 4, C11",
+    ),
+    "C12": S(
+        registry.C12,
+        explanation="The dispatch registry is an IdentityDict; inside IdentityDict every keyed access wraps the key in id(), every store keeps the key object as element 0, every value accessor projects element 1 (sibling agreement); "
+                    "get_code has a rebinding+continue case for partial, MethodType, classmethod, staticmethod and __wrapped__ and leaves its loop only through the final break; nested names are resolved through co_consts by co_name; "
+                    "registration is an unconditional item store keyed by get_code(code, *names) (latest wins), dispatch falls back only on KeyError; every customize option is forwarded in the decorator form and has an effect in customize_it.",
+        decides=["REG-1", "REG-2", "REG-3", "REG-4", "REG-5", "REG-6"],
+        not_decided=["inspect.unwrap's behaviour", "arbitrary wrapper towers at run time"],
+        assumptions=BASE_ASSUME,
+        level_text="Static sibling-agreement and option-liveness check. Found F3 (hide_line dead in both forms), repaired in /repo.",
+        level_note="Necessary structural conditions of identity-keyed dispatch.",
+        technique="static analysis: sibling agreement inside IdentityDict, case exhaustiveness of get_code, option liveness (forwarded and read with effect)",
+        design_ref="DESIGN.md section 4, C12",
+    ),
+    "C13": S(
+        e.C13,
+        explanation="ExtractOptions derives from threading.local with a single module-level instance and None defaults; push saves both fields before writing them and restores exactly the saved pair in a finally enclosing the single yield; "
+                    "no other code stores to the fields; extract/extract_outermost do all work inside push(<own parameters under their own names>), extract_since/extract_until forward both options; all four agree on the documented defaults; "
+                    "extract_child refuses when options are unset, and returns the root-only stub iff for_task and not recurse_child_tasks (truth table); frame.contexts is stored only under with_contexts and that region changes no engine state.",
+        decides=["OPT-1", "OPT-2", "OPT-3", "OPT-4", "OPT-5", "OPT-6", "OPT-7", "CTX-4"],
+        not_decided=["hooks that themselves consult frame.contexts"],
+        assumptions=BASE_ASSUME,
+        level_text="Static scoping-discipline check: given the semantics of threading.local, with and try/finally, these rules imply the property (per-thread, well-nested, exception-safe option scoping).",
+        level_note="The strongest fit of the list: the property is a scoping discipline visible in the code.",
+        technique="static analysis: class-hierarchy fact, save/restore pairing on the CFG, single-writer (who-may-write) rule, argument forwarding, truth tables",
+        design_ref="DESIGN.md section 4, C13",
+    ),
+    "C16": S(
+        e.C16,
+        explanation="extract_outermost and extract_child consume the same generator function with (stackitem, fresh error list) and extract_outermost returns its first item; in extract_outermost's StopIteration handler every path raises "
+                    "(the recorded error, an ExceptionGroup of them, or a new RuntimeError, by count); the package's only Frame(...) construction is preceded by the filter that reduces origin to a generator/coroutine/async generator or None; "
+                    "better_origin falls back when the candidate is not weak-referenceable.",
+        decides=["ORI-1", "ORI-2", "ORI-3"],
+        not_decided=["that extract_outermost(origin) recovers the frame for every frame (finding F5: origin inherited by frames inward of a running coroutine is a run-time fact)"],
+        assumptions=BASE_ASSUME,
+        level_text="Static check of three structural clauses; the recovery contract itself is a run-time statement and is not claimed.",
+        level_note="Thin: necessary conditions only.",
+        technique="static analysis: shared-iterator agreement, all-paths-raise evaluation by error count, dominating filter before the only constructor call",
+        design_ref="DESIGN.md section 4, C16",
+    ),
+    "C17": S(
+        glue.C17 + [e.def1],
+        explanation="Protocol of the glue installer: there is one installer function and every call of a glue function goes through it (who-may-call); both references are removed from their registries (pop) before either is called; "
+                    "the two calls are the exclusive arms of one if/elif with the module-provided one first; registry accesses, the scan loop and the calls are covered by glue_lock at every call site; "
+                    "failures only warn and the scan loop cannot be left early; the length cache is written after the scan, inside the lock, from the snapshot taken before it; at decoration time glue runs only under a condition implying the module is imported and is otherwise pending; "
+                    "the fast-path predicate is inspected for depending on sys.modules only through len() (open known finding F4).",
+        decides=["GLUE-1", "GLUE-2", "GLUE-3", "GLUE-4", "GLUE-5", "GLUE-6", "GLUE-7", "GLUE-8", "DEF-1"],
+        not_decided=["'by the time the first extraction returns' under preemption between the fast path and the lock (argued from GLUE-3/5, not explored)"],
+        assumptions=BASE_ASSUME + ["module import is serialised by the import lock (registration at decoration time happens during import of stackscope._glue)"],
+        level_text="Static protocol check (ordering, exclusivity, lock coverage, containment, cache-write position, who-may-call). Found N2 (eager glue bypassing the installer), repaired in /repo; F4 (len-only fast path) is listed as an open known finding.",
+        level_note="Exactly-once under all interleavings is argued from lock coverage + pop-before-call, not model-checked.",
+        technique="static analysis: who-may-call over resolved call sites, dominance (pop before call), lock-coverage at every caller, boolean implication of guards",
+        design_ref="DESIGN.md section 4, C17",
+    ),
+}
+
+NOT_APPLICABLE = {
+    "C03": "quantifies over run-time object graphs (cr_await / gi_yieldfrom / gc.get_referents chains) and line numbers of an await/yield-from chain; the built-in unwrappers are one-liners already pinned by the suite; no structural clause adds a necessary condition the tests miss, and comparing with a thrown exception's traceback is execution, not static analysis",
+    "C14": "isomorphism with Trio's live task tree and thread hand-offs depends on Trio's run-time state and on locals of third-party frames; nothing in the shape of stackscope's code separates right from wrong",
+    "C04": "check under construction in this session (SLC rules); not claimed until it lands",
+    "C06": "check under construction in this session (ESC/NULL rules); not claimed until it lands",
+    "C07": "check under construction in this session (SNAP/THR rules); not claimed until it lands",
+    "C09": "check under construction in this session (GCM/CTX-6..8 rules); not claimed until it lands",
+    "C18": "check under construction in this session (FMT rules); not claimed until it lands",
+    "C19": "check under construction in this session (FMT rules); not claimed until it lands",
+    "C20": "check under construction in this session (MODE/REF rules); not claimed until it lands",
+    "C15": "greenlet/greenback stacks are a case analysis over run-time gr_frame / parent / f_back values (finding F8 included); no sound static argument in reach bounds them",
 }
